@@ -14,8 +14,8 @@
    The resolver, flatten/lowering and the rest of the back end are tied by the correspondence and
    end-to-end streams of vplib/props/c04*.py, not by proof. *)
 From Coq Require Import List ZArith QArith NArith Bool Permutation.
-From PV Require Import Lib.ListX Model.Rel Model.Window Model.Frame Model.WindowFns Model.SplitBase
-  Gen.GenSplit Gen.GenWindow Proofs.RelFacts Proofs.FrameProofs Proofs.WindowProofs.
+From PV Require Import Lib.ListX Model.Rel Model.Window Model.Frame Model.WindowFns Model.WinReorder Model.SplitBase
+  Gen.GenSplit Gen.GenWindow Proofs.RelFacts Proofs.FrameProofs Proofs.WindowProofs Proofs.WinReorderProofs.
 Import ListNotations.
 Local Open Scope Z_scope.
 
@@ -272,6 +272,54 @@ Theorem c04_reorder_keeps_window_after_take :
 Proof. vm_compute. reflexivity. Qed.
 Print Assumptions c04_reorder_keeps_window_after_take.
 
+(* ---------------------------------------------------------------- (c') preprocess.rs reorder, as a function *)
+(* Model/WinReorder.v `reorder` mirrors the two loops of reorder_inner over (kind, complexity)-tagged pipelines; it is
+   compared with the implementation's input / output on every compile of the end-to-end streams (hook
+   verif:preprocess).  What the source says now is the modelled policy: *)
+Theorem c04_gen_reorder_policy : reorder_policy_eqb code_reorder_policy model_reorder_policy = true.
+Proof. vm_compute. reflexivity. Qed.
+Print Assumptions c04_gen_reorder_policy.
+
+(* for EVERY pipeline and every policy: the result is reached by swaps "a Compute moves in front of its left
+   neighbour, which the policy lets it cross" and by nothing else *)
+Theorem c04_reorder_only_allowed_swaps : forall pol p, rreach pol p (reorder pol p).
+Proof. exact reorder_reach. Qed.
+Print Assumptions c04_reorder_only_allowed_swaps.
+
+Theorem c04_reorder_is_permutation : forall pol p, Permutation p (reorder pol p).
+Proof. exact reorder_perm. Qed.
+Print Assumptions c04_reorder_is_permutation.
+
+(* ... hence any meaning of pipelines that is invariant under those single swaps is preserved by reorder *)
+Theorem c04_reorder_preserves_invariant_meaning : forall (M : Type) (sem : list ritem -> M) pol,
+  (forall l1 x y c l2, snd y = RCompute c -> should_swap pol c (snd x) = true ->
+     sem (l1 ++ x :: y :: l2) = sem (l1 ++ y :: x :: l2)) ->
+  forall p, sem (reorder pol p) = sem p.
+Proof. exact reorder_preserves. Qed.
+Print Assumptions c04_reorder_preserves_invariant_meaning.
+
+(* for EVERY pipeline, under the policy of the source (c04_gen_reorder_policy): erase the sorts and the row-local
+   (Plain) column definitions -- what is left stands in the same order before and after.  A Windowed (or
+   Aggregation, or NonGroup) column definition therefore never moves across a Take, a Filter, an Aggregate, a Join
+   or a set operation, in either direction: a window function defined after `take n` / `filter` sees exactly the
+   rows that passed it *)
+Theorem c04_reorder_keeps_rowset_order : forall p,
+  filter (fun i => order_matters (snd i)) (reorder code_reorder_policy p) = filter (fun i => order_matters (snd i)) p.
+Proof. intro p. rewrite (reorder_ext _ _ c04_gen_reorder_policy). apply reorder_keeps_rowset_order. Qed.
+Print Assumptions c04_reorder_keeps_rowset_order.
+
+(* transforms that are not column definitions keep their order (under any policy), so do the column definitions
+   among themselves (a definition never overtakes one it may refer to), and the first transform stays first *)
+Theorem c04_reorder_keeps_transforms_and_definitions : forall pol p,
+  filter (fun i => negb (is_compute (snd i))) (reorder pol p) = filter (fun i => negb (is_compute (snd i))) p /\
+  filter (fun i => is_compute (snd i)) (reorder pol p) = filter (fun i => is_compute (snd i)) p /\
+  (forall x t, p = x :: t -> exists t', reorder pol p = x :: t').
+Proof.
+  intros pol p. split; [apply reorder_keeps_transforms|]. split; [apply reorder_keeps_computes|].
+  intros x t ->. apply reorder_head.
+Qed.
+Print Assumptions c04_reorder_keeps_transforms_and_definitions.
+
 (* ---------------------------------------------------------------- (d) rows are kept *)
 Theorem c04_window_preserves_rows : forall fr keys cols l,
   (length (Rel.apply (TWinF fr keys cols) l) = length l /\
@@ -345,3 +393,10 @@ Example c04_ex_known : known_f22 false true no_window = true /\ known_f22 false 
 Proof. repeat split; reflexivity. Qed.
 Example c04_ex_not_keys : cols_not_keys [5%N] [(Some 9%N, WRankDense, ECol None 2%N)].
 Proof. intros nm w e [H|[]]. injection H as <- _ _. cbn. intros [E|[]]. discriminate. Qed.
+(* reorder: `sort | take | derive {w = window fn, y = plain}` -- neither moves (a Compute never overtakes a Compute, the
+   Windowed one may not cross the Take); with the plain one first it alone is pulled in front of the Take and the Sort *)
+Example c04_ex_reorder :
+  reorder_tags model_reorder_policy [0; 2; 3; 12; 10]%N = [0; 1; 2; 3; 4]%N /\
+  reorder_tags model_reorder_policy [0; 2; 3; 10; 12]%N = [0; 3; 1; 2; 4]%N /\
+  reorder_tags model_reorder_policy [0; 3; 2; 12]%N = [0; 1; 3; 2]%N.
+Proof. repeat split; vm_compute; reflexivity. Qed.
